@@ -1,5 +1,5 @@
 """What MANIFEST.json claims, per property (edited as the framework grows)."""
-FIX_COMMITS = ["4727107", "486f7ce", "d05ddbd", "f423e4b", "7fe0d0d", "5df9647", "d27b645", "987e38c", "2cef112", "982202e", "f86aa9e", "c129ca9", "e8515c9", "341aea1", "515d88c", "c40fb6f", "c2e88a4", "927a4ab", "1bb4912", "5aed925", "df54439", "9497b7a", "ffcfa14", "1d17e10", "d4d57a9", "ec020a0", "042ed29", "8db46b2", "0135040", "d93fe7c", "5122c96", "e0ca076", "b952f58", "b269106", "a8fb4fc", "26bb470", "6c0aa1f"]
+FIX_COMMITS = ["4727107", "486f7ce", "d05ddbd", "f423e4b", "7fe0d0d", "5df9647", "d27b645", "987e38c", "2cef112", "982202e", "f86aa9e", "c129ca9", "e8515c9", "341aea1", "515d88c", "c40fb6f", "c2e88a4", "927a4ab", "1bb4912", "5aed925", "df54439", "9497b7a", "ffcfa14", "1d17e10", "d4d57a9", "ec020a0", "042ed29", "8db46b2", "0135040", "d93fe7c", "5122c96", "e0ca076", "b952f58", "b269106", "a8fb4fc", "26bb470", "6c0aa1f", "30e9cb8"]
 
 ENGINE_NOTE = ("Trusted: Coq 8.16.1 kernel (vm_compute for table obligations; no axioms: every theorem is "
                "'Closed under the global context'); tools/translate.py (reflective dump of the live classes, "
